@@ -370,6 +370,29 @@ def miss_rule(F, rep, G):
     rep.ob("C14-MISS", "%s has a success arm for its stream lookup (what lies behind it needs a named stream)" % gf.key.rsplit("::", 1)[-1], bool(succ_entries),
            site="%s:%d" % (gf.file, gf.line_lo), key="C14-MISS | %s | success arm found" % gf.key)
     bodies.append((gf, lambda b: b not in behind and not gf.blocks[b]["cleanup"]))
+    # closures of open() (error-context builders run when the archive module has just refused the file) and the local helpers
+    # they and the pre-gate part of open() call: everything in them runs on a file that is not a readable archive
+    extra, work = [], []
+    for cl in F.closures_of(opn.key):
+        work.append(cl)
+    for bi, t in opn.calls():
+        if bi not in after and not t.get("indirect") and t["callee"] in F.funcs and t is not gt and F.funcs[t["callee"]].crate == "ragc_core" and \
+                t["callee"].startswith("ragc_core::decompressor::"):
+            work.append(F.funcs[t["callee"]])
+    seenx = {opn.key, gf.key}
+    while work:
+        x = work.pop()
+        if x.key in seenx:
+            continue
+        seenx.add(x.key)
+        extra.append(x)
+        for cl in F.closures_of(x.key):
+            work.append(cl)
+        for _, t in x.calls():
+            if not t.get("indirect") and t["callee"] in F.funcs and t["callee"].startswith("ragc_core::decompressor::") and len(seenx) < 12:
+                work.append(F.funcs[t["callee"]])
+    for x in extra:
+        bodies.append((x, (lambda xx: (lambda b: not xx.blocks[b]["cleanup"]))(x)))
     for f, armed in bodies:
         aud = Auditor(f)
         for bi, b in enumerate(f.blocks):
